@@ -137,8 +137,10 @@ func (self Loader) LoadMany(items []LoadOneItem) (out []Function) {
 // WARN: this API is experimental, use it carefully
 func Load(text []byte, funcs []Func, modulename string, filenames []string) (out []Function) {
 	ids := make([]string, len(funcs))
+	offs := make([]uint32, len(funcs))
 	for i, f := range funcs {
 		ids[i] = f.Name
+		offs[i] = f.EntryOff
 	}
 	// generate module data and allocate memory address
 	mod := makeModuledata(modulename, filenames, &funcs, text)
@@ -153,6 +155,11 @@ func Load(text []byte, funcs []Func, modulename string, filenames []string) (out
 	for i, s := range ids {
 		for _, f := range funcs {
 			if f.Name == s {
+				// NOTICE: names are not unique (distinct types may print identically),
+				// entry offsets are
+				if f.EntryOff != offs[i] {
+					continue
+				}
 				m := uintptr(mod.text + uintptr(f.EntryOff))
 				out[i] = Function(&m)
 			}
